@@ -72,7 +72,9 @@ StepBad(e, A, Cl) ==
                    \/ (oCurId # 0 /\ e.sid # oCurId))             \* one id per publication
              \/ (e.op = "poll" /\ res \in {"some", "none", "pending"} /\ res # Expected(id))
              \/ (e.op = "try_recv" /\ res \in {"some", "none"} /\ (res = "some") # Deliverable(id))
-      c11 == \/ (e.op = "close" /\ res # (IF oClosed THEN "already" ELSE "newly"))
+      c11 == \* (threaded runs) the drop of the last handle of a side has returned: the channel is closed by now
+             \/ (e.op = "drop_returned" /\ ~oClosed)
+             \/ (e.op = "close" /\ res # (IF oClosed THEN "already" ELSE "newly"))
              \/ (e.op = "send" /\ ((res = "err") # oClosed))
              \/ (e.op = "send" /\ res = "err" /\ e.rv # v)
              \/ ("closed" \in DOMAIN e /\ e.closed # Cl)
